@@ -1239,6 +1239,15 @@ class Frame:
                 isinstance(args[0], str):
             import re as _re
             return _re.escape(args[0])
+        if isinstance(f, ast.Attribute) and f.attr in ('encode', 'decode', 'lower', 'upper', 'strip', 'startswith', 'endswith', 'replace') and \
+                not kwargs and all(isinstance(a, (str, bytes, int)) and not isinstance(a, bool) for a in args) and \
+                isinstance(f.value, (ast.Constant, ast.Name)):
+            base = self.eval(f.value)
+            if isinstance(base, (str, bytes)):
+                try:
+                    return getattr(base, f.attr)(*args)  # a pure method of a constant string
+                except (TypeError, ValueError, LookupError):
+                    pass
         if isinstance(f, ast.Attribute) and f.attr == 'format':
             base = self.eval(f.value)
             if isinstance(base, str):
